@@ -300,3 +300,21 @@ package protobuf
 //@   inlines FromChannelUpdate, ToChannelUpdate
 //@   ensures fromErr == nil && toErr == nil ==> y.ActorIdx == x.ActorIdx && len(y.Sig) == len(x.Sig) && (forall j int :: 0 <= j && j < len(x.Sig) ==> y.Sig[j] == x.Sig[j])
 //@   ensures fromErr == nil && toErr == nil ==> y.State != nil && pbStateEq(y.State, x.State)
+
+// Channel proposals (the part all proposal kinds share) and their acceptance.
+//@ func verifPBBaseChannelProposal
+//@   requires x.InitBals != nil && x.App != nil && x.InitData != nil && validAlloc(*x.InitBals) && nonNilAssets(x.InitBals.Assets) && nonNilBalances(x.InitBals.Balances) &&
+//@     nonNilLocked(x.InitBals.Locked) && len(x.InitBals.Backends) == len(x.InitBals.Assets) && nonNilBalances(x.FundingAgreement) && streaming()
+//@   requires (forall i int :: 0 <= i && i < len(x.InitBals.Backends) ==> 0 <= x.InitBals.Backends[i] && x.InitBals.Backends[i] <= 4294967295) &&
+//@     (forall i int :: 0 <= i && i < len(x.FundingAgreement) ==> nonNeg(x.FundingAgreement[i])) && (!isNoApp(x.App) ==> marshalLen(appDef(x.App)) > 0)
+//@   modifies *
+//@   inlines FromBaseChannelProposal, ToBaseChannelProposal
+//@   callsite Resolve : unmarshalledFrom(def) == marshalOf(appDef(x.App))
+//@   ensures fromErr == nil && toErr == nil ==> y.ProposalID == x.ProposalID && y.NonceShare == x.NonceShare && y.ChallengeDuration == x.ChallengeDuration && y.Aux == x.Aux
+//@   ensures fromErr == nil && toErr == nil ==> y.InitBals != nil && allocRT(*y.InitBals, *x.InitBals)
+//@   ensures fromErr == nil && toErr == nil ==> len(y.FundingAgreement) == len(x.FundingAgreement) &&
+//@     forall i, j int :: 0 <= i && i < len(x.FundingAgreement) && 0 <= j && j < len(x.FundingAgreement[i]) ==> len(y.FundingAgreement[i]) == len(x.FundingAgreement[i]) && y.FundingAgreement[i][j] != nil && val(y.FundingAgreement[i][j]) == val(x.FundingAgreement[i][j])
+//@   ensures fromErr == nil && toErr == nil ==> (isNoApp(x.App) ==> isNoApp(y.App)) && y.InitData != nil && (!isNoApp(x.App) ==> unmarshalledFrom(y.InitData) == marshalOf(x.InitData))
+//@ func verifPBBaseChannelProposalAcc
+//@   inlines FromBaseChannelProposalAcc, ToBaseChannelProposalAcc
+//@   ensures result.ProposalID == x.ProposalID && result.NonceShare == x.NonceShare
